@@ -336,6 +336,41 @@ pub fn run_filtered(ctx: &RunCtx, tier: Tier, keep: &[&str]) -> RunOut {
     out
 }
 
+thread_local! {
+    /// log of the most recent execution of `run_script` on this thread (for sibling oracles)
+    static LAST_LOG: std::cell::RefCell<Vec<Obs>> = const { std::cell::RefCell::new(Vec::new()) };
+}
+
+/// The one-request exploration of this module judged by another property's oracle on the same log
+/// (C11's own verdicts are dropped; deadlocks and lost wake-ups are kept).
+pub fn run_judged_by(ctx: &RunCtx, tier: Tier, judge: &dyn Fn(&[Obs]) -> V) -> RunOut {
+    let mut out = run_filtered(ctx, tier, &["lost wake-up", "deadlock"]);
+    if out.violation.is_none() {
+        let log = LAST_LOG.with(|l| l.borrow().clone());
+        if let Err((k, m)) = judge(&log) {
+            out = out.fail(k, m);
+        }
+    }
+    out
+}
+
+/// The back-off exploration (first attempt of every check fails, two requests) judged by another oracle.
+pub fn run_backoff_judged_by(ctx: &RunCtx, tier: Tier, judge: &dyn Fn(&[Obs]) -> V) -> RunOut {
+    let mut out = run_script(ctx, tier, 2, true);
+    if let Some(v) = out.violation.as_ref() {
+        if !["lost wake-up", "deadlock"].iter().any(|k| v.key.contains(k)) {
+            out.violation = None;
+        }
+    }
+    if out.violation.is_none() {
+        let log = LAST_LOG.with(|l| l.borrow().clone());
+        if let Err((k, m)) = judge(&log) {
+            out = out.fail(k, m);
+        }
+    }
+    out
+}
+
 #[derive(Clone, Copy, PartialEq)]
 enum DropMode {
     None,
@@ -433,6 +468,7 @@ fn run_script(ctx: &RunCtx, tier: Tier, n_total: usize, backoff_script: bool) ->
         }
     }
     let log = e.log();
+    LAST_LOG.with(|l| *l.borrow_mut() = log.clone());
     let reqs = requests(&log);
     if reqs.iter().any(|r| r.reply.as_ref().map(|x| x.1 != "Started" && x.1 != "Throttled").unwrap_or(false)) {
         interesting = true;
